@@ -37,8 +37,13 @@ META = {
             "k / n / radius / voxel sizes derived from the cloud's own distance spectrum incl. exact hits of the radius and "
             "of cell boundaries on fixed-point clouds, dtype float32/float64, batch shapes where documented); points are "
             "shuffled so that outliers sit at arbitrary positions; hand-made corner clouds first (1..3 points, one voxel, "
-            "nothing retained, #retained <= k); quick: 140 knn + 170 nbr + 170 voxel + 170 knn_filter + 70 random_filter + "
-            "150 camera + 70 homo cases (+20% later calls with the same shapes), thorough: about 10x that; every case goes to "
+            "nothing retained, #retained <= k), then a FIXED-SEED CORPUS of 306 cases independent of VERIF_SEED (per stream "
+            "ord x dtype x kind crossed with: magnitudes 2^-400..2^400 (f32: 2^-40..2^30), exact radius hits / 0 / inf, "
+            "duplicates, k >= 17 and N2 > 40, every flag combination, memory layouts cols/rows/transposed/expanded, one "
+            "tensor in two roles, mixed-regime batches, RNG extremes, 36 call histories on caller-held tensors with one "
+            "argument varied per call and in-place updates between calls), then seeded cases; quick: 110 knn + 130 nbr + "
+            "130 voxel + 130 knn_filter + 50 random_filter + 120 camera + 50 homo + 14 histories (+20% later calls with the "
+            "same shapes), thorough: about 12x that; every case goes to "
             "the exact integer oracle, all but the largest clouds beyond a per-stream budget also to the 192-bit Lean model; "
             "a case is non-trivial when N >= 2 and distinct by (stream, kind, N-bucket, dims, ord, k/n bucket, flags, dtype, "
             "batch shape)",
@@ -127,6 +132,10 @@ def sfar(a: float, b: float, tol: float) -> bool:
     return not (abs(a - b) <= tol)
 
 
+def wire_radius(r: float) -> str:
+    return "1:2000" if math.isinf(r) else to_wire(r)
+
+
 def cloud_tokens(x: torch.Tensor) -> str:
     return " ".join(to_wire(v) for v in x.reshape(-1).tolist())
 
@@ -140,7 +149,7 @@ def nums(toks):
 _KEPT = {}    # history stream: tensors held by the caller across calls: key -> {"x": typed tensor, "nb": bumps applied}
 _BASES = []   # (buffer, snapshot) of every larger buffer a view was cut from during the current check
 
-HIST_KINDS = ["lattice", "line", "dupes", "blobs"]
+HIST_KINDS = ["blobs", "uniform", "gauss", "blobs", "lattice"]   # mostly tie-free: tie rows are skipped by the oracle
 
 
 def build_cloud(case, item=0, which="pts"):
@@ -188,7 +197,7 @@ def apply_bump(x: torch.Tensor, j: int, seed: int):
     a, b, c, d = (r.randrange(N) for _ in range(4))
     t = j % 4
     if t == 1:
-        x.add_(x[a] - x[b] if a != b else x[a])
+        x.add_((x[a] - x[b]).clone() if a != b else x[a].clone())
     elif t == 2:
         x[a] = x[b] + (x[c] - x[d])
     elif t == 3:
@@ -202,10 +211,8 @@ def kept(case, which="pts"):
     key = case["keep"] if which == "pts" or case.get("alias") else case["keep2"]
     ent = _KEPT.get(key)
     if ent is None:
-        c0 = dict(case)
-        if which != "pts" and not case.get("alias"):
-            c0 = dict(case, N=case["N2"], data_seed=case["data_seed2"])
-        ent = {"x": build_cloud(c0).to(dt(case)).clone(), "nb": 0, "seed": c0["data_seed"]}
+        c0 = case["obj"] if which == "pts" or case.get("alias") else case["obj2"]
+        ent = {"x": build_cloud(c0).to(U.DT[c0["dtype"]]).clone(), "nb": 0, "seed": c0["data_seed"]}
         _KEPT[key] = ent
     want = case.get("bump" if which == "pts" or case.get("alias") else "bump2", 0)
     while ent["nb"] < want:
@@ -258,15 +265,18 @@ def key_to_radius(key: int, s: int, ord_) -> float:
     return float(key) * 2.0 ** -s
 
 
-def choose_radius(r: random.Random, K, s, ord_, dtype, exact):
+def choose_radius(r: random.Random, K, s, ord_, dtype, exact, mode=None):
     """radius from the cloud's own distance spectrum: exact hits (lattice), midpoints, below min, above max"""
     sp = spectrum(K)
     if not sp:
         rad = r.choice([0.0, 1.0, 0.5])
     else:
-        c = r.random()
+        c = {"hit": 0.0, "mid": 0.5, "below": 0.8, "above": 0.9, "zero": 0.99}.get(mode, r.random())
         j = r.randrange(len(sp))
-        if c < 0.35 and exact:
+        if mode == "hit" and ord_ == 2:
+            sq = [q for q in range(len(sp)) if math.isqrt(sp[q]) ** 2 == sp[q]]
+            j = r.choice(sq) if sq else j
+        if c < 0.35 and (exact or mode == "hit"):
             rad = key_to_radius(sp[j], s, ord_)          # hits a distance exactly when representable
         elif c < 0.75:
             a = key_to_radius(sp[j], s, ord_)
@@ -335,11 +345,22 @@ def row_unambiguous(Krow, drow, k, largest, tol, exact):
     return True
 
 
+def exact_all_unambiguous(case, r64, n64, k, largest, tol):
+    Za, s_ = U.exact_ints(torch.cat([r64, n64], 0))
+    K = U.pair_keys(Za[: r64.shape[0]], Za[r64.shape[0]:], case["ord"])
+    d = U.keys_to_dist(K, s_, case["ord"]).tolist()
+    ex = U.float_exact(Za, s_, case["dtype"], case["ord"])
+    return all(row_unambiguous(kr, d[i], k, largest, tol, ex) for i, kr in enumerate(key_rows(K)))
+
+
 def check_knn(ctx: Ctx, case, jobs: Jobs | None = None) -> bool:
     P = pp()
     o, k, largest, is_sorted = case["ord"], case["k"], case["largest"], case["sorted"]
     ref, ref_items = stacked(case, "pts")
-    nbr, nbr_items = stacked(case, "nbr")
+    if case.get("alias"):         # the same tensor object passed as both arguments
+        nbr, nbr_items = ref, ref_items
+    else:
+        nbr, nbr_items = stacked(case, "nbr")
     tol = rt(case)
     ok = True
     mon = common.PurityMonitor()
@@ -407,8 +428,23 @@ def check_knn(ctx: Ctx, case, jobs: Jobs | None = None) -> bool:
                         ctx.disagree("knn", case, f"batch {b} row {i}: indices {idx_b[i].tolist()} model {mi[i*k:(i+1)*k]}")
                         return
             jobs.add(case["N"] * case["N2"], line, cb)
+    # item-wise = batched: every batch item alone must give the row block of the batched call
+    if case.get("batch") and ok:
+        refs, nbrs = ref.reshape((nB,) + tuple(ref.shape[-2:])), nbr.reshape((nB,) + tuple(nbr.shape[-2:]))
+        for b in range(nB):
+            try:
+                r1 = P.knn(refs[b], nbrs[b], **kwargs)
+            except Exception as e:
+                ctx.fail(case, f"knn-itemwise: knn raises on batch item {b} alone: {type(e).__name__}: {str(e)[:100]}")
+                return False
+            if tuple(r1.values.shape) != (case["N"], k) or \
+                    not torch.allclose(r1.values.double(), vals2[b], rtol=tol, atol=0) or \
+                    (is_sorted and not torch.equal(r1.indices, idx2[b]) and exact_all_unambiguous(case, ref_items[b], nbr_items[b], k, largest, tol)):
+                ctx.fail(case, f"knn-itemwise: batch item {b} alone gives another result than inside the batch "
+                               f"(kinds {case.get('item_kinds')}, magnitudes 2^{case.get('item_mags')})")
+                return False
     # equivariance under permutations of nbr and of ref (on the real code itself)
-    if case.get("perm_seed") is not None and ok:
+    if case.get("perm_seed") is not None and ok and not case.get("alias") and case.get("keep") is None:
         r = random.Random(case["perm_seed"])
         sn = list(range(case["N2"]))
         r.shuffle(sn)
@@ -465,15 +501,18 @@ def nbr_oracle(case, X64, radius, o, pdim):
     Tkey = U.radius_key(radius, s, o)
     cnt, le = exact_counts(K, Tkey)
     tol = rt(case)
-    near = np.abs(d - radius) <= 4 * tol * np.maximum(d, radius)
+    near = (np.abs(d - radius) <= 4 * tol * np.maximum(d, radius)) if math.isfinite(radius) else np.zeros(d.shape, dtype=bool)
     if exact:
         if K.dtype == object:
             hit = np.vectorize(lambda v: int(v) == Tkey, otypes=[bool])(K)
         else:
             hit = K == Tkey
         # an exact hit of the radius (key == threshold and radius**2 == key) is decided exactly by the float code
-        fr = Fraction(radius)
-        thr_exact = (fr * fr * Fraction(4) ** s == Tkey) if o == 2 else (fr * Fraction(2) ** s == Tkey)
+        if math.isinf(radius):
+            thr_exact = False
+        else:
+            fr = Fraction(radius)
+            thr_exact = (fr * fr * Fraction(4) ** s == Tkey) if o == 2 else (fr * Fraction(2) ** s == Tkey)
         decisive_hit = hit & thr_exact
         near = near & ~decisive_hit
     near = near & ~np.eye(K.shape[0], dtype=bool)
@@ -531,7 +570,7 @@ def check_nbr(ctx: Ctx, case, jobs: Jobs | None = None) -> bool:
     if amb:
         ctx.count("nbr.ambiguous-rows", int(amb))
     if jobs is not None:
-        line = (f"c18.nbr {U.ord_tok(o)} {pd} {X64.shape[1]} {case['N']} {n} {to_wire(radius)} " + cloud_tokens(X64))
+        line = (f"c18.nbr {U.ord_tok(o)} {pd} {X64.shape[1]} {case['N']} {n} {wire_radius(radius)} " + cloud_tokens(X64))
 
         def cb(st, toks, m=m, lo=lo, hi=hi):
             if st != "ok":
@@ -548,7 +587,7 @@ def check_nbr(ctx: Ctx, case, jobs: Jobs | None = None) -> bool:
                     return
         jobs.add(case["N"] ** 2, line, cb)
     # equivariance on the real code
-    if case.get("perm_seed") is not None:
+    if case.get("perm_seed") is not None and case.get("keep") is None:
         r = random.Random(case["perm_seed"])
         sg = list(range(case["N"]))
         r.shuffle(sg)
@@ -669,7 +708,7 @@ def check_voxel(ctx: Ctx, case, jobs: Jobs | None = None) -> bool:
                     j = int(far(got, mv, tolm).any(1).nonzero()[0])
                     ctx.disagree("voxel", case, f"row {j}: implementation {got[j].tolist()} model {mv[j].tolist()}")
             jobs.add(N * M, line, cb)
-        if case.get("perm_seed") is not None:
+        if case.get("perm_seed") is not None and case.get("keep") is None:
             r = random.Random(case["perm_seed"])
             sg = list(range(N))
             r.shuffle(sg)
@@ -758,7 +797,7 @@ def check_knnf(ctx: Ctx, case, jobs: Jobs | None = None) -> bool:
         if N < k + 1:
             ctx.count("knnf.k-range-error")
             if jobs is not None:
-                line = f"c18.knnf {U.ord_tok(o)} {pd} {D} {N} {k} {0 if radius is None else 1} {to_wire(radius or 0.0)} " \
+                line = f"c18.knnf {U.ord_tok(o)} {pd} {D} {N} {k} {0 if radius is None else 1} {wire_radius(radius or 0.0)} " \
                        + cloud_tokens(items[0])
                 jobs.add(1, line, lambda st, toks: None if st == "err" else
                          ctx.disagree("knnf", case, "implementation raises for N < k+1, the model returns a result"))
@@ -811,7 +850,7 @@ def check_knnf(ctx: Ctx, case, jobs: Jobs | None = None) -> bool:
                                f"(radius={radius!r}, ord={o}, pdim={pd})")
                 return False
         if jobs is not None and b < case.get("model_items", 1):
-            line = f"c18.knnf {U.ord_tok(o)} {pd} {D} {N} {k} {0 if radius is None else 1} {to_wire(radius or 0.0)} " \
+            line = f"c18.knnf {U.ord_tok(o)} {pd} {D} {N} {k} {0 if radius is None else 1} {wire_radius(radius or 0.0)} " \
                    + cloud_tokens(X64)
             unamb = [row_unambiguous(rows[i], d[i], k + 1, False, tol, exact) for i in keep]
 
@@ -830,8 +869,21 @@ def check_knnf(ctx: Ctx, case, jobs: Jobs | None = None) -> bool:
                         ctx.disagree("knnf", case, f"row {r_}: implementation {got[r_].tolist()} model {mv[r_].tolist()}")
                         return
             jobs.add(N * N, line, cb)
+    if radius is None and case.get("batch"):
+        xs_ = x.reshape((-1, N, D))
+        for b in range(xs_.shape[0]):
+            try:
+                o1 = P.knn_filter(xs_[b], **kw).double()
+            except Exception as e:
+                ctx.fail(case, f"knnf-itemwise: knn_filter raises on batch item {b} alone: {type(e).__name__}: {str(e)[:100]}")
+                return False
+            tolm = (64 + 2 * (k + 1)) * eps * items[b].abs().amax(0)
+            if o1.shape != outs[b].shape or bool(far(o1, outs[b], tolm).any()):
+                ctx.fail(case, f"knnf-itemwise: batch item {b} alone gives other rows than inside the batch "
+                               f"(kinds {case.get('item_kinds')}, magnitudes 2^{case.get('item_mags')})")
+                return False
     # equivariance on the real code
-    if case.get("perm_seed") is not None:
+    if case.get("perm_seed") is not None and case.get("keep") is None:
         r = random.Random(case["perm_seed"])
         sg = list(range(N))
         r.shuffle(sg)
@@ -912,6 +964,15 @@ def check_randf(ctx: Ctx, case, jobs: Jobs | None = None) -> bool:
         if any(a is not None and c is not None and a != c for a, c in zip(idx_all[0], idx_all[b])):
             ctx.fail(case, "randf-batch: different batch items are sampled at different indices")
             return False
+    if case.get("batch") and nB >= 2:
+        for b in range(nB):
+            if mode == "real":
+                torch.manual_seed(case["data_seed"])
+            with U.observe_rng(mode, script):
+                o1 = P.random_filter(xs[b], num)
+            if not torch.equal(o1, outs[b]):
+                ctx.fail(case, f"randf-itemwise: batch item {b} alone (same draw) gives other rows than inside the batch")
+                return False
     perms = [vs for (nm, a, vs) in log if nm == "randperm"]
     if jobs is not None and len(perms) == 1 and sorted(perms[0]) == list(range(N)):
         line = f"c18.randf {D} {N} {num} " + " ".join(map(str, perms[0])) + " " + cloud_tokens(items[0])
@@ -947,16 +1008,17 @@ def gen_camera(case):
         m = int(math.prod(shape))
         t = torch.tensor([f() for _ in range(m)], dtype=torch.float64).reshape(shape)
         return t.to(U.DT[d]).double()
-    zlo = -2 if d == "float32" else -6
-    pts = rnd(bp + (n, 3), lambda: lad(r, -2, 2))
+    sp = case.get("span", 0)      # extra decades on every ladder: extreme-but-valid cameras / scenes
+    zlo = (-2 if d == "float32" else -6) - sp
+    pts = rnd(bp + (n, 3), lambda: lad(r, -2 - sp, 2 + sp))
     if case.get("zmode") == "ladder":
-        z = rnd(bp + (n,), lambda: lad(r, zlo, 3))
+        z = rnd(bp + (n,), lambda: lad(r, zlo, 3 + sp))
         pts[..., 2] = z
     K = torch.zeros(bk + (3, 3), dtype=torch.float64)
-    K[..., 0, 0] = rnd(bk, lambda: lad(r, -1, 3))
-    K[..., 1, 1] = rnd(bk, lambda: lad(r, -1, 3))
-    K[..., 0, 2] = rnd(bk, lambda: lad(r, -1, 3) if r.random() < 0.9 else 0.0)
-    K[..., 1, 2] = rnd(bk, lambda: lad(r, -1, 3) if r.random() < 0.9 else 0.0)
+    K[..., 0, 0] = rnd(bk, lambda: lad(r, -1 - sp, 3 + sp))
+    K[..., 1, 1] = rnd(bk, lambda: lad(r, -1 - sp, 3 + sp))
+    K[..., 0, 2] = rnd(bk, lambda: lad(r, -1 - sp, 3 + sp) if r.random() < 0.9 else 0.0)
+    K[..., 1, 2] = rnd(bk, lambda: lad(r, -1 - sp, 3 + sp) if r.random() < 0.9 else 0.0)
     K[..., 2, 2] = 1.0
     if case.get("general_K"):
         K[..., 0, 1] = rnd(bk, lambda: lad(r, -2, 1))
@@ -974,8 +1036,10 @@ def gen_camera(case):
             t = [lad(r, -2, 2) for _ in range(3)]
             rows.append(t + [c / nq for c in q])
         ext = torch.tensor(rows, dtype=torch.float64).reshape(be + (7,)).to(U.DT[d]).double()
-    px = rnd(bp + (n, 2), lambda: lad(r, -1, 3))
-    depth = rnd(bp + (n,), lambda: lad(r, zlo, 3))
+    px = rnd(bp + (n, 2), lambda: lad(r, -1 - sp, 3 + sp))
+    depth = rnd(bp + (n,), lambda: lad(r, zlo, 3 + sp))
+    if case.get("aliasK"):        # the same (3,3) tensor is both the point set and the intrinsics
+        K = pts
     return pts, K, ext, px, depth
 
 
@@ -994,6 +1058,17 @@ def check_camera(ctx: Ctx, case, jobs: Jobs | None = None) -> bool:
     pts, K, ext, px, depth = gen_camera(case)
     T = U.DT[d]
     ptsT, KT, pxT, depthT = pts.to(T), K.to(T), px.to(T), depth.to(T)
+    if case.get("aliasK"):
+        KT = ptsT                                  # one tensor object, two roles
+    elif case.get("layout") == "views":            # slices / transposes / strided views of larger caller buffers
+        ptsT, pxT, KT = lay(ptsT, "cols"), lay(pxT, "rows"), lay(KT, "T")
+        dbuf = torch.full(depthT.shape[:-1] + (2 * depthT.shape[-1],), 9.0, dtype=T)
+        dbuf[..., ::2] = depthT
+        _BASES.append((dbuf, dbuf.clone()))
+        depthT = dbuf[..., ::2]
+    elif case.get("layout") == "expandK" and case["bk"]:
+        K = K.reshape(-1, 3, 3)[0].expand(tuple(case["bk"]) + (3, 3)).clone()
+        KT = K.reshape(-1, 3, 3)[0].to(T).expand(tuple(case["bk"]) + (3, 3))      # stride-0 intrinsics
     extT = P.SE3(ext.to(T)) if ext is not None else None
     mon = common.PurityMonitor()
     args = (ptsT, KT) if ext is None else (ptsT, KT, extT)
@@ -1035,6 +1110,18 @@ def check_camera(ctx: Ctx, case, jobs: Jobs | None = None) -> bool:
                        f"{want[b, i].tolist()} (p={ptsB[b, i].tolist()})")
         return False
     ok = True
+    # item-wise = batched: each broadcast batch item projected alone
+    if 2 <= B <= 6:
+        for b in range(B):
+            a1 = (ptsB[b].to(T), KB[b].to(T)) if ext is None else (ptsB[b].to(T), KB[b].to(T), P.SE3(extB[b].to(T)))
+            try:
+                u1 = P.point2pixel(*a1).double()
+            except Exception as e:
+                ctx.fail(case, f"camera-itemwise: point2pixel raises on batch item {b} alone: {type(e).__name__}: {str(e)[:100]}")
+                return False
+            if u1.shape != uvB[b].shape or bool((far(u1, uvB[b], tolu[b]) & okmask[b].unsqueeze(-1)).any()):
+                ctx.fail(case, f"camera-itemwise: batch item {b} alone projects to {u1.tolist()} but inside the batch to {uvB[b].tolist()}")
+                return False
     if jobs is not None:
         sel = [(b, i) for b in range(B) for i in range(n)]
         random.Random(case["data_seed"] + 1).shuffle(sel)
@@ -1216,6 +1303,8 @@ def check_homo(ctx: Ctx, case, jobs: Jobs | None = None) -> bool:
     small = (ws.abs() < 1e-3)
     q = torch.where(small.expand_as(p), (p.double().sign() * torch.rand(shape, generator=torch.Generator().manual_seed(case["data_seed"]), dtype=torch.float64)).to(T), p)
     hq = torch.cat([q, ws], -1)
+    if case.get("layout") == "cols" and hq.dim() >= 2:
+        hq = lay(hq, "cols")
     keep = hq.clone()
     out = P.homo2cart(hq)
     if not torch.equal(hq, keep):
@@ -1253,11 +1342,33 @@ def nbucket(n):
     return 0 if n <= 1 else 1 if n <= 6 else 2 if n <= 24 else 3 if n <= 70 else 4
 
 
-def gen_common(rng, hiN):
+MAGS = {"float32": [-40, -12, 0, 0, 0, 0, 0, 12, 30], "float64": [-400, -60, 0, 0, 0, 0, 0, 60, 400]}
+VOX_MAGS = {"float32": [-40, -12, 0, 0, 0, 0, 12, 30], "float64": [-100, -30, 0, 0, 0, 0, 30, 100]}
+LAYOUTS = [None] * 7 + ["cols", "rows", "T"]
+
+
+def gen_common(rng, hiN, **over):
     pdim = rng.choice([1, 2, 2, 3, 3, 3, 4, 5, 6])
-    return {"kind": rng.choice(U.KINDS), "N": U.pick_N(rng, hiN), "pdim": pdim, "extra": rng.choice([0, 0, 1, 2, 3]),
-            "dtype": rng.choice(["float32", "float64"]), "ord": rng.choice(ORDS), "data_seed": rng.randrange(1 << 30),
-            "perm_seed": rng.randrange(1 << 30) if rng.random() < 0.5 else None}
+    c = {"kind": rng.choice(U.KINDS), "N": U.pick_N(rng, hiN), "pdim": pdim, "extra": rng.choice([0, 0, 1, 2, 3]),
+         "dtype": rng.choice(["float32", "float64"]), "ord": rng.choice(ORDS), "data_seed": rng.randrange(1 << 30),
+         "perm_seed": rng.randrange(1 << 30) if rng.random() < 0.5 else None, "layout": rng.choice(LAYOUTS)}
+    c.update({k_: v for k_, v in over.items() if k_ in c or k_ in ("mag_exp",)})
+    if "mag_exp" not in c:
+        c["mag_exp"] = rng.choice(MAGS[c["dtype"]])
+    return c
+
+
+def mix_items(rng, c):
+    """mixed-regime batch: every batch item of another kind and magnitude (lattice ties next to gauss, tiny next to huge)"""
+    nb = batch_items(c) if c.get("batch") else 0
+    if nb >= 2 and rng.random() < 0.7:
+        k0 = rng.randrange(len(U.KINDS))
+        c["item_kinds"] = [U.KINDS[(k0 + 2 * b_) % len(U.KINDS)] for b_ in range(nb)]
+        c["item_mags"] = [rng.choice(MAGS[c["dtype"]]) for _ in range(nb)]
+        if rng.random() < 0.5:
+            c["item_mags"][0], c["item_mags"][-1] = MAGS[c["dtype"]][0], MAGS[c["dtype"]][-1]
+    elif nb >= 2 and rng.random() < 0.3:
+        c["layout"] = "expand"
 
 
 def pick_k(rng, n):
@@ -1268,110 +1379,309 @@ def pick_k(rng, n):
                                      rng.randint(1, max(1, n // 2)), 0 if rng.random() < 0.3 else 1])))
 
 
-def gen_knn_case(rng, hiN):
-    c = gen_common(rng, hiN)
+def gen_knn_case(rng, hiN, **over):
+    c = gen_common(rng, hiN, **over)
     c["stream"] = "knn"
     c["extra"] = 0
-    c["N2"] = U.pick_N(rng, hiN)
+    c["N2"] = over.get("N2", U.pick_N(rng, hiN))
     if c["N"] * c["N2"] > 12000:
         c["N"] = max(1, 12000 // c["N2"])
-    c["batch"] = rng.choice([[], [], [], [2], [1], [2, 2], [3]])
+    c["batch"] = over.get("batch", rng.choice([[], [], [], [2], [1], [2, 2], [3]]))
     if c["batch"] and c["N"] * c["N2"] > 2500:
         c["batch"] = []
-    c["k"] = pick_k(rng, c["N2"])
-    c["largest"], c["sorted"] = rng.choice([(False, True)] * 9 + [(True, True)] * 4 + [(False, False)] * 3 + [(True, False)] * 4)
-    c["defaults"] = rng.random() < 0.1
+    c["alias"] = over.get("alias", rng.random() < 0.12)
+    if c["alias"]:
+        c["N2"] = c["N"]
+    c["k"] = over["k"](c["N2"]) if "k" in over else pick_k(rng, c["N2"])
+    c["largest"], c["sorted"] = over.get("flags", rng.choice([(False, True)] * 9 + [(True, True)] * 4 + [(False, False)] * 3
+                                                             + [(True, False)] * 4))
+    c["defaults"] = over.get("defaults", rng.random() < 0.1)
     if c["defaults"]:
         c["ord"], c["largest"], c["sorted"] = 2, False, True
         c["k"] = min(c["N2"], rng.choice([1, 1, 2]))
+    if not c["alias"]:
+        mix_items(rng, c)
     return c
 
 
-def gen_nbr_case(rng, hiN):
-    c = gen_common(rng, hiN)
+def gen_nbr_case(rng, hiN, **over):
+    c = gen_common(rng, hiN, **over)
     c["stream"] = "nbr"
     c["pdim_arg"] = None if c["extra"] == 0 and rng.random() < 0.6 else rng.randint(1, c["pdim"])
-    X64 = build_cloud(c)
+    derive_radius(rng, c, over)
+    return c
+
+
+def derive_radius(rng, c, over=None, X64=None):
+    """radius (and n) from the cloud's own distance spectrum"""
+    over = over or {}
+    X64 = build_cloud(c) if X64 is None else X64
     pd = c["pdim"] if c["pdim_arg"] is None else c["pdim_arg"]
     Z, s = U.exact_ints(X64[:, :pd])
     K = U.pair_keys(Z, Z, c["ord"])
     exact = U.float_exact(Z, s, c["dtype"], c["ord"])
-    c["radius"] = choose_radius(rng, K, s, c["ord"], c["dtype"], exact)
-    # n around the counts that actually occur (so that both outcomes happen), sometimes 0 / N / negative
-    cnt, _ = exact_counts(K, U.radius_key(c["radius"], s, c["ord"]))
-    cand = sorted(set(int(v) for v in cnt.tolist()))
-    n = rng.choice(cand + [v + 1 for v in cand]) if cand and rng.random() < 0.8 else rng.choice([0, 1, 2, c["N"], c["N"] - 1, -1])
-    c["n"] = int(n)
-    return c
+    if over.get("radius") == "inf":
+        c["radius"] = float("inf")
+    else:
+        c["radius"] = choose_radius(rng, K, s, c["ord"], c["dtype"], exact, over.get("radius_mode"))
+    if c["stream"] == "nbr" or "n" in over:
+        # n around the counts that actually occur (so that both outcomes happen), sometimes 0 / N / negative
+        cnt, _ = exact_counts(K, U.radius_key(c["radius"], s, c["ord"]))
+        cand = sorted(set(int(v) for v in cnt.tolist()))
+        n = rng.choice(cand + [v + 1 for v in cand]) if cand and rng.random() < 0.8 else rng.choice([0, 1, 2, c["N"], c["N"] - 1, -1])
+        c["n"] = int(over.get("n", n))
 
 
 def f32(v):
     return float(torch.tensor(v, dtype=torch.float32))
 
 
-def gen_voxel_case(rng, hiN):
-    c = gen_common(rng, hiN)
-    c["stream"] = "voxel"
-    c["random"] = rng.random() < 0.4
-    c["rng_mode"] = rng.choice(["lo", "hi", "hi", "script", "real"]) if c["random"] else None
-    vd = rng.randint(1, c["pdim"]) if (c["extra"] == 0 and rng.random() < 0.5) else c["pdim"]
-    X64 = build_cloud(c)
+def derive_voxel(rng, c, vd, X64=None, mode_over=None):
+    X64 = build_cloud(c) if X64 is None else X64
     vox = []
     for j in range(vd):
         col = X64[:, j]
         span = float(col.max() - col.min())
-        base = span / rng.choice([1, 2, 3, 5, 9, 0.5, 40]) if span > 0 else 1.0
-        mode = rng.random()
+        base = span / rng.choice([1, 2, 3, 5, 9, 0.5, 40]) if span > 0 else 2.0 ** c.get("mag_exp", 0)
+        mode = rng.random() if mode_over is None else mode_over
         if mode < 0.45:
             v = 2.0 ** round(math.log2(base)) if base > 0 else 1.0      # power of two: exact cell hits on fixed-point clouds
         elif mode < 0.7:
             v = rng.choice([1, 3, 5, 7]) * 2.0 ** round(math.log2(base) - 1)
-        else:
+        elif mode < 0.93:
             v = base * rng.uniform(0.7, 1.3)
+        elif mode < 0.97:
+            v = min(base * 2.0 ** 40, 2.0 ** 120)           # one huge cell
+        else:
+            tiny_pow = -19 if c["dtype"] == "float32" else -33                     # cells far smaller than the spacing:
+            v = span * 2.0 ** tiny_pow if span > 0 else base                       # cell indices beyond 2^31 in float64
         if rng.random() < 0.12:
             v = -v
-        if span > 0 and span / abs(v) > 1e6:
-            v = span / 1000.0
-        vox.append(f32(v) if v != 0 else 1.0)
+        v = f32(v)
+        if v == 0 or not math.isfinite(v) or (span > 0 and span / abs(v) > 2.0 ** 40):
+            v = f32(base) if f32(base) != 0 and math.isfinite(f32(base)) else 1.0
+        vox.append(v)
     c["voxel"] = vox
+
+
+def gen_voxel_case(rng, hiN, **over):
+    c = gen_common(rng, hiN, **over)
+    c["stream"] = "voxel"
+    if "mag_exp" not in over:
+        c["mag_exp"] = rng.choice(VOX_MAGS[c["dtype"]])
+    c["random"] = over.get("random", rng.random() < 0.4)
+    c["rng_mode"] = over.get("rng_mode", rng.choice(["lo", "hi", "hi", "script", "real"])) if c["random"] else None
+    vd = rng.randint(1, c["pdim"]) if (c["extra"] == 0 and rng.random() < 0.5) else c["pdim"]
+    derive_voxel(rng, c, vd, mode_over=over.get("vox_mode"))
     return c
 
 
-def gen_knnf_case(rng, hiN):
-    c = gen_common(rng, hiN)
+def gen_knnf_case(rng, hiN, **over):
+    c = gen_common(rng, hiN, **over)
     c["stream"] = "knnf"
     c["pdim_arg"] = None if c["extra"] == 0 and rng.random() < 0.6 else rng.randint(1, c["pdim"])
     N = c["N"]
-    c["k"] = max(0, min(N + 1, rng.choice([1, 1, 2, 2, 3, 4, rng.randint(0, max(0, N - 1)), rng.randint(0, max(0, N - 1)), N // 2,
-                                            N - 2, N - 1, N if rng.random() < 0.3 else 1])))
-    if rng.random() < 0.6:
-        X64 = build_cloud(c)
-        pd = c["pdim"] if c["pdim_arg"] is None else c["pdim_arg"]
-        Z, s = U.exact_ints(X64[:, :pd])
-        K = U.pair_keys(Z, Z, c["ord"])
-        exact = U.float_exact(Z, s, c["dtype"], c["ord"])
-        c["radius"] = choose_radius(rng, K, s, c["ord"], c["dtype"], exact)
+    c["k"] = over["k"](N) if "k" in over else max(0, min(N + 1, rng.choice(
+        [1, 1, 2, 2, 3, 4, rng.randint(0, max(0, N - 1)), rng.randint(0, max(0, N - 1)), N // 2, N - 2, N - 1,
+         N if rng.random() < 0.3 else 1])))
+    if over.get("with_radius", rng.random() < 0.6):
+        derive_radius(rng, c, over)
         c["batch"] = []
     else:
         c["radius"] = None
-        c["batch"] = rng.choice([[], [], [2], [1, 2], [3]]) if N <= 40 else []
+        c["batch"] = over.get("batch", rng.choice([[], [], [2], [1, 2], [3]]) if N <= 40 else [])
+        mix_items(rng, c)
     return c
 
 
-def gen_randf_case(rng, hiN):
-    c = gen_common(rng, hiN)
+def gen_randf_case(rng, hiN, **over):
+    c = gen_common(rng, hiN, **over)
     c["stream"] = "randf"
     c["extra"] = rng.choice([1, 1, 2, 0])
-    c["batch"] = rng.choice([[], [], [2], [2, 3], [1]])
-    c["num"] = rng.choice([c["N"], c["N"], max(0, c["N"] - 1), rng.randint(0, c["N"]), 1 if c["N"] else 0, 0])
-    c["rng_mode"] = rng.choice(["real", "real", "hi", "lo", "script", "script"])
+    c["batch"] = over.get("batch", rng.choice([[], [], [2], [2, 3], [1]]))
+    c["num"] = over["num"](c["N"]) if "num" in over else rng.choice(
+        [c["N"], c["N"], max(0, c["N"] - 1), rng.randint(0, c["N"]), 1 if c["N"] else 0, 0])
+    c["rng_mode"] = over.get("rng_mode", rng.choice(["real", "real", "hi", "lo", "script", "script"]))
+    mix_items(rng, c)
     return c
+
+
+# ---------------------------------------------------------------------------- histories on caller-held tensors
+
+HIST_ARGS = {"nbr": ["ord", "pdim", "radius", "n"], "knnf": ["ord", "pdim", "k", "radius"],
+             "voxel": ["voxel", "random", "vdim"], "randf": ["num", "draw"], "knn": ["ord", "k", "flags", "partner"]}
+
+
+def gen_hist_case(rng, nsteps=8):
+    """a sequence of calls on 2-3 tensors the caller keeps.  The history is made of segments: one function on one
+    object is called again and again, each call changing exactly ONE per-call argument (ord, pdim, k, n, radius, voxel
+    sizes, vdim, random flag, num, the draw, flags, the partner object) with calls on other objects / of other functions
+    interleaved; then the caller updates the tensor in place (add_, item assignment, copy_, mul_) and repeats the last
+    call with identical arguments.  Each result must depend on this call's arguments and the CURRENT values only."""
+    objs = {}
+    for key in ("A", "B", "C")[: rng.choice([2, 3])]:
+        pdim = rng.choice([1, 2, 3, 3])
+        objs[key] = {"kind": rng.choice(HIST_KINDS), "N": rng.choice([2, 3, 5, 8, 13, 21, 30]), "pdim": pdim,
+                     "extra": rng.choice([0, 0, 1, 2]), "dtype": rng.choice(["float32", "float64"]),
+                     "data_seed": rng.randrange(1 << 30), "mag_exp": 0, "bumps": 0}
+    if rng.random() < 0.6:      # two objects of the SAME shape and dtype (caches keyed by shape / dtype only)
+        objs["B"] = dict(objs["A"], data_seed=rng.randrange(1 << 30), kind=rng.choice(HIST_KINDS))
+    sim = {}
+
+    def spec_of(o):
+        return {k_: o[k_] for k_ in ("kind", "N", "pdim", "extra", "dtype", "data_seed", "mag_exp")}
+
+    def state(key):
+        o = objs[key]
+        ent = sim.setdefault(key, {"x": build_cloud(spec_of(o)).to(U.DT[o["dtype"]]).clone(), "nb": 0})
+        while ent["nb"] < o["bumps"]:
+            ent["nb"] += 1
+            apply_bump(ent["x"], ent["nb"], o["data_seed"])
+        return ent["x"].double()
+
+    def partner(c, key):
+        o = objs[key]
+        others = [q for q in objs if q != key and objs[q]["pdim"] + objs[q]["extra"] == o["pdim"] + o["extra"]
+                  and objs[q]["dtype"] == o["dtype"]]
+        for f_ in ("keep2", "bump2", "obj2"):
+            c.pop(f_, None)
+        if others and (c.get("alias", True) or rng.random() < 0.5):
+            q = rng.choice(others)
+            state(q)
+            c.update(alias=False, N2=objs[q]["N"], keep2=q, bump2=objs[q]["bumps"], obj2=spec_of(objs[q]))
+        else:
+            c.update(alias=True, N2=o["N"])
+        c["k"] = min(c.get("k", 1), c["N2"])
+
+    def fresh(st, key):
+        o = objs[key]
+        N = o["N"]
+        spec = spec_of(o)
+        c = {"stream": st, "keep": key, "bump": o["bumps"], "perm_seed": None, "layout": None, "ord": rng.choice(ORDS),
+             "obj": dict(spec), **spec}
+        X64 = state(key)
+        if st in ("nbr", "knnf"):
+            c["pdim_arg"] = rng.choice([None, rng.randint(1, o["pdim"])]) if o["extra"] == 0 else rng.randint(1, o["pdim"])
+        if st == "nbr":
+            derive_radius(rng, c, None, X64)
+        elif st == "knnf":
+            c["k"] = rng.choice([0, 1, 1, 2, 3, max(0, N - 1), N // 2])
+            c["batch"] = []
+            c["radius"] = None
+            if rng.random() < 0.6:
+                derive_radius(rng, c, None, X64)
+        elif st == "voxel":
+            c["random"] = rng.random() < 0.4
+            c["rng_mode"] = rng.choice(["lo", "hi", "script"]) if c["random"] else None
+            derive_voxel(rng, c, rng.randint(1, o["pdim"]) if o["extra"] == 0 else o["pdim"], X64)
+        elif st == "randf":
+            c["batch"] = []
+            c["num"] = rng.choice([N, N - 1, rng.randint(0, N), 1])
+            c["rng_mode"] = rng.choice(["hi", "lo", "script", "real"])
+        else:
+            c["pdim"], c["extra"] = o["pdim"] + o["extra"], 0      # knn uses every column
+            c["batch"], c["defaults"], c["alias"] = [], False, rng.random() < 0.5
+            c["largest"], c["sorted"] = rng.choice([(False, True), (True, True), (False, False)])
+            c["k"] = N
+            partner(c, key)
+            c["k"] = pick_k(rng, c["N2"])
+        return c
+
+    def vary(c, arg, key):
+        """the same call with exactly one argument changed"""
+        o = objs[key]
+        c = dict(c)
+        N = o["N"]
+        if arg == "ord":
+            c["ord"] = rng.choice([q for q in ORDS if q != c["ord"]])
+        elif arg == "pdim":
+            opts = [q for q in ([None] if o["extra"] == 0 else []) + list(range(1, o["pdim"] + 1)) if q != c["pdim_arg"]
+                    and not (q is None and c["pdim_arg"] == o["pdim"]) and not (q == o["pdim"] and c["pdim_arg"] is None)]
+            if opts:
+                c["pdim_arg"] = rng.choice(opts)
+        elif arg == "k":
+            lim = c["N2"] if c["stream"] == "knn" else max(0, N - 1)
+            c["k"] = rng.choice([q for q in range(0, lim + 1) if q != c["k"]] or [c["k"]])
+        elif arg == "radius":
+            n_old = c.get("n")
+            if c["stream"] == "knnf" and c["radius"] is not None and rng.random() < 0.3:
+                c["radius"] = None
+            else:
+                derive_radius(rng, c, None, state(key))
+            if n_old is not None:
+                c["n"] = n_old
+        elif arg == "n":
+            c["n"] = c["n"] + rng.choice([-1, 1])
+        elif arg == "voxel":
+            derive_voxel(rng, c, len(c["voxel"]), state(key))
+        elif arg == "vdim":
+            if o["extra"] == 0 and o["pdim"] > 1:
+                derive_voxel(rng, c, rng.choice([q for q in range(1, o["pdim"] + 1) if q != len(c["voxel"])]), state(key))
+        elif arg == "random":
+            c["random"] = not c["random"]
+            c["rng_mode"] = rng.choice(["lo", "hi", "script"]) if c["random"] else None
+        elif arg == "num":
+            c["num"] = rng.choice([q for q in range(0, N + 1) if q != c["num"]])
+        elif arg == "draw":
+            c["rng_mode"] = rng.choice([q for q in ["hi", "lo", "script"] if q != c["rng_mode"]])
+        elif arg == "flags":
+            c["largest"], c["sorted"] = rng.choice([q for q in [(False, True), (True, True), (False, False), (True, False)]
+                                                    if q != (c["largest"], c["sorted"])])
+        elif arg == "partner":
+            partner(c, key)
+        return c
+
+    steps = []
+    while len(steps) < nsteps:
+        key = rng.choice(list(objs))
+        st = rng.choice(["nbr", "voxel", "knnf", "knnf", "randf", "knn"])
+        cur = fresh(st, key)
+        steps.append(cur)
+        args = list(HIST_ARGS[st])
+        rng.shuffle(args)
+        for arg in args[: rng.randint(2, len(args))]:
+            if rng.random() < 0.3:          # another function on another object in between
+                k2 = rng.choice(list(objs))
+                steps.append(fresh(rng.choice(["nbr", "voxel", "knnf", "randf"]), k2))
+            cur = vary(cur, arg, key)
+            steps.append(cur)
+        # the caller edits the tensor in place, then repeats the very same call
+        objs[key]["bumps"] += 2              # two different kinds of update
+        cur = dict(cur, bump=objs[key]["bumps"])
+        if cur.get("keep2") is not None:
+            cur["bump2"] = objs[cur["keep2"]]["bumps"]
+        steps.append(cur)
+    return {"stream": "hist", "steps": steps, "N": 2}
+
+
+def check_hist(ctx: Ctx, case, jobs: Jobs | None = None) -> bool:
+    _KEPT.clear()
+    ok = True
+    for i, st in enumerate(case["steps"]):
+        n0 = len(ctx.failures)
+        ctx.count(f"hist.call.{st['stream']}")
+        try:
+            good = CHECKS[st["stream"]](ctx, st, jobs)
+        except common.InfraError:
+            raise
+        except Exception as e:  # noqa: BLE001
+            ctx.fail(st, f"{st['stream']}-malformed: the implementation's result could not be examined: {type(e).__name__}: {str(e)[:160]}")
+            good = False
+        for f in ctx.failures[n0:]:
+            f["case"] = {"stream": "hist", "steps": case["steps"][: i + 1], "N": 2}
+            f["what"] = "history-" + f["what"].replace(":", f" (call #{i} of a history on caller-held tensors, "
+                                                              f"{st.get('bump', 0)} in-place updates before it):", 1)
+        if not good:
+            ok = False
+            break
+    _KEPT.clear()
+    return ok
 
 
 SHAPES3 = [[], [1], [2], [3], [2, 1], [1, 3], [2, 3]]
 
 
-def gen_camera_case(rng):
+def gen_camera_case(rng, **over):
     bp = rng.choice(SHAPES3)
     # broadcast-compatible partners: drop leading dims or set to 1
     def partner(b):
@@ -1384,36 +1694,58 @@ def gen_camera_case(rng):
         if rng.random() < 0.5:
             bk = bp
         bp = bp2
-    return {"stream": "camera", "bp": bp, "bk": bk, "be": be, "ext": rng.random() < 0.55, "n": rng.choice([1, 2, 3, 6]),
-            "dtype": rng.choice(["float32", "float64"]), "general_K": rng.random() < 0.25,
-            "zmode": rng.choice(["ladder", "plain"]), "data_seed": rng.randrange(1 << 30)}
+    c = {"stream": "camera", "bp": bp, "bk": bk, "be": be, "ext": rng.random() < 0.55, "n": rng.choice([1, 2, 3, 6]),
+         "dtype": rng.choice(["float32", "float64"]), "general_K": rng.random() < 0.25,
+         "zmode": rng.choice(["ladder", "plain"]), "data_seed": rng.randrange(1 << 30)}
+    c["span"] = rng.choice([0, 0, 0, 3] if c["dtype"] == "float32" else [0, 0, 0, 10, 40])
+    c["layout"] = rng.choice([None] * 6 + ["views", "views", "expandK"])
+    c.update(over)
+    if c.get("aliasK"):
+        c.update(bp=[], bk=[], be=[], ext=False, n=3, general_K=True, layout=None)
+    return c
 
 
-def gen_homo_case(rng):
-    return {"stream": "homo", "shape": rng.choice([[1], [2], [3], [4], [7], [2, 3], [5, 2], [2, 1, 4], [3, 2, 2]]),
-            "dtype": rng.choice(["float32", "float64"]), "mag": rng.choice([1.0, 1.0, 1e-3, 1e3]),
-            "data_seed": rng.randrange(1 << 30)}
+HOMO_MAGS = {"float32": [1.0, 1.0, 1e-3, 1e3, 1e-30, 1e-15, 1e15, 1e30], "float64": [1.0, 1.0, 1e-3, 1e3, 1e-200, 1e-60, 1e60, 1e200]}
+
+
+def gen_homo_case(rng, **over):
+    dtp = over.get("dtype", rng.choice(["float32", "float64"]))
+    c = {"stream": "homo", "shape": rng.choice([[1], [2], [3], [4], [7], [2, 3], [5, 2], [2, 1, 4], [3, 2, 2]]),
+         "dtype": dtp, "mag": rng.choice(HOMO_MAGS[dtp]), "layout": rng.choice([None, None, "cols"]),
+         "data_seed": rng.randrange(1 << 30)}
+    c.update(over)
+    return c
 
 
 CHECKS = {"knn": check_knn, "nbr": check_nbr, "voxel": check_voxel, "knnf": check_knnf, "randf": check_randf,
-          "camera": check_camera, "homo": check_homo}
+          "camera": check_camera, "homo": check_homo, "hist": check_hist}
 
 
 def signature(c):
     st = c["stream"]
+    if st == "hist":
+        return ("hist", tuple((q["stream"], q["keep"], q.get("bump", 0)) for q in c["steps"]))
     if st in ("camera", "homo"):
         return (st, c["dtype"], tuple(c.get("bp", c.get("shape", []))), tuple(c.get("bk", [])), c.get("ext"), c.get("general_K"),
                 c["data_seed"] % 97)
     return (st, c["kind"], nbucket(c["N"]), c["pdim"], c.get("extra"), str(c["ord"]), c["dtype"],
             min(c.get("k", c.get("n", c.get("num", 0))) or 0, 9), c.get("radius") is not None, c.get("random"), c.get("largest"),
-            tuple(c.get("batch", [])))
+            tuple(c.get("batch", [])), c.get("layout"), c.get("mag_exp"), bool(c.get("alias")), bool(c.get("item_kinds")))
 
 
 def guarded(ctx: Ctx, c, jobs):
     """run one check; a result whose structure cannot even be examined (wrong rank, wrong type, ...) is a failure of
     the implementation on this input, not an infrastructure problem (the unchanged tree never takes this path)"""
+    _BASES.clear()
     try:
-        return CHECKS[c["stream"]](ctx, c, jobs)
+        ok = CHECKS[c["stream"]](ctx, c, jobs)
+        for base, snap in _BASES:
+            if not torch.equal(torch.nan_to_num(base, nan=1.5), torch.nan_to_num(snap, nan=1.5)):
+                ctx.fail(c, f"{c['stream']}-aliasing: memory outside / behind the view handed in (layout {c.get('layout')}) "
+                            f"was modified by the call")
+                ok = False
+        _BASES.clear()
+        return ok
     except common.InfraError:
         raise
     except Exception as e:  # noqa: BLE001
@@ -1427,7 +1759,7 @@ def guarded(ctx: Ctx, c, jobs):
 def run_case(ctx: Ctx, c, jobs):
     st = c["stream"]
     ctx.count(f"{st}")
-    if st not in ("camera", "homo"):
+    if st not in ("camera", "homo", "hist"):
         ctx.count(f"{st}.kind.{c['kind']}")
         ctx.count(f"{st}.N.{['1', '2-6', '7-24', '25-70', '71-300'][nbucket(c['N'])]}")
         ctx.count(f"{st}.ord.{c['ord']}")
@@ -1450,13 +1782,19 @@ def run(ctx: Ctx):
     torch.set_num_threads(2)
     jobs = Jobs()
     hiN = 300
-    plan = [("knn", gen_knn_case, ctx.pick(140, 1400)), ("nbr", gen_nbr_case, ctx.pick(170, 1600)),
-            ("voxel", gen_voxel_case, ctx.pick(170, 1600)), ("knnf", gen_knnf_case, ctx.pick(170, 1600)),
-            ("randf", gen_randf_case, ctx.pick(70, 600))]
+    plan = [("knn", gen_knn_case, ctx.pick(110, 1400)), ("nbr", gen_nbr_case, ctx.pick(130, 1600)),
+            ("voxel", gen_voxel_case, ctx.pick(130, 1600)), ("knnf", gen_knnf_case, ctx.pick(130, 1600)),
+            ("randf", gen_randf_case, ctx.pick(50, 600))]
     big_budget = {"knn": ctx.pick(1, 20), "nbr": ctx.pick(1, 20), "voxel": ctx.pick(2, 30), "knnf": ctx.pick(1, 20), "randf": 1000}
     # hand-made corner cases first (docstring clouds with the outliers moved, 1-point clouds, single voxel, ...)
     for c in corner_cases():
         run_case(ctx, c, jobs)
+    # deterministic corpus (independent of VERIF_SEED): every class of the hardening list, small clouds
+    for c in corpus_cases():
+        ctx.count("corpus")
+        run_case(ctx, c, jobs if c.get("N", 0) <= 70 and c.get("N2", 0) <= 70 else None)
+    for _ in range(ctx.pick(14, 160)):
+        run_case(ctx, gen_hist_case(rng, rng.choice([5, 8, 11])), jobs)
     for name, gen, n in plan:
         nbig = 0
         for _ in range(n):
@@ -1468,11 +1806,100 @@ def run(ctx: Ctx):
                     run_case(ctx, c, None)
                     continue
             run_case(ctx, c, jobs)
-    for _ in range(ctx.pick(150, 1500)):
+    for _ in range(ctx.pick(120, 1500)):
         run_case(ctx, gen_camera_case(rng), jobs)
-    for _ in range(ctx.pick(70, 600)):
+    for _ in range(ctx.pick(50, 600)):
         run_case(ctx, gen_homo_case(rng), jobs)
     jobs.flush(ctx)
+
+
+def corpus_cases():
+    """Fixed-seed corpus, run before the seeded cases so that detection of a whole class never depends on VERIF_SEED:
+    per stream a sweep over ord x dtype x cloud kind crossed with the classes of the hardening list —
+    extreme magnitudes, exact hits / ties / duplicates, big k and N2, every flag combination, every memory layout,
+    one tensor in two roles, mixed-regime batches, RNG extremes, histories on caller-held tensors."""
+    r = random.Random(20260925)
+    out = []
+    kinds = U.KINDS
+    dts = ["float32", "float64"]
+    it = 0
+    # knn: flags x ord x dtype, N2 beyond 40, k large, alias, layouts, magnitudes, mixed batches
+    for flags in [(False, True), (True, True), (False, False), (True, False)]:
+        for o in ORDS:
+            for dtp in dts:
+                it += 1
+                out.append(gen_knn_case(r, 60, kind=kinds[it % 6], ord=o, dtype=dtp, flags=flags, defaults=False,
+                                        N=[3, 9, 17, 30][it % 4], N2=[5, 45, 23, 64][it % 4], alias=False,
+                                        k=(lambda n, it=it: [1, n, n // 2, max(1, n - 1)][it % 4]),
+                                        batch=[[], [2], [], [3]][it % 4], layout=[None, "cols", "rows", "T"][it % 4],
+                                        mag_exp=MAGS[dtp][[0, 2, 8, 4][it % 4]], perm_seed=it))
+    for dtp in dts:
+        for o in ORDS:
+            out.append(gen_knn_case(r, 40, kind="dupes", ord=o, dtype=dtp, alias=True, flags=(False, True), defaults=False,
+                                    batch=[], N=12, mag_exp=0, layout=None))
+            out.append(gen_knn_case(r, 40, kind="gauss", ord=o, dtype=dtp, alias=True, flags=(False, True), defaults=False,
+                                    batch=[2], N=7, mag_exp=MAGS[dtp][0], layout=None, k=(lambda n: 3)))
+    # nbr: radius modes incl. exact hits, 0, inf; n = 0 / negative / N; duplicates; magnitudes; layouts
+    for mode in ["hit", "hit", "mid", "below", "above", "zero", "inf"]:
+        for o in ORDS:
+            for dtp in dts:
+                it += 1
+                kind = ["lattice", "line", "dupes", "blobs", "lattice", "uniform"][it % 6]
+                over = dict(kind=kind, ord=o, dtype=dtp, N=[2, 6, 14, 33][it % 4], layout=[None, "rows", "cols", "T"][it % 4],
+                            mag_exp=MAGS[dtp][[4, 0, 8, 3][it % 4]] if mode != "hit" else [0, -12, 12][it % 3], perm_seed=it)
+                if mode == "inf":
+                    over["radius"] = "inf"
+                else:
+                    over["radius_mode"] = mode
+                if it % 5 == 0:
+                    over["n"] = [0, -1, over["N"], over["N"] - 1][it % 4]
+                out.append(gen_nbr_case(r, 60, **over))
+    # voxel: size modes (power of two / multiples / arbitrary / one huge cell / tiny cells), both branches, RNG extremes
+    for vm in [0.2, 0.6, 0.8, 0.95, 0.99]:
+        for rnd_, mode in [(False, None), (True, "hi"), (True, "lo"), (True, "script")]:
+            for dtp in dts:
+                it += 1
+                out.append(gen_voxel_case(r, 60, kind=kinds[it % 6], dtype=dtp, N=[1, 4, 11, 27, 48][it % 5], vox_mode=vm,
+                                          random=rnd_, rng_mode=mode, layout=[None, "cols", "rows", "T"][it % 4],
+                                          mag_exp=VOX_MAGS[dtp][[3, 0, 7, 1][it % 4]], perm_seed=it))
+    # knn_filter: with / without radius, k small / >= 17 / N-1, ord, pdim, mixed batches, inf radius
+    for wr in [True, True, False]:
+        for o in ORDS:
+            for dtp in dts:
+                for kk in [(lambda n: 1), (lambda n: min(n - 1, 19)), (lambda n: n - 1), (lambda n: n // 2)]:
+                    it += 1
+                    over = dict(kind=kinds[it % 6], ord=o, dtype=dtp, N=[4, 24, 9, 40][it % 4], k=kk, with_radius=wr,
+                                layout=[None, "T", "rows", "cols"][it % 4], mag_exp=MAGS[dtp][[4, 1, 7, 0, 8][it % 5]],
+                                perm_seed=it, batch=[[2], [], [3], [1, 2]][it % 4])
+                    if wr and it % 4 == 0:
+                        over["radius_mode"] = "hit"
+                        over["mag_exp"] = 0
+                        over["kind"] = ["lattice", "line"][it % 2]
+                    if wr and it % 7 == 0:
+                        over["radius"] = "inf"
+                    out.append(gen_knnf_case(r, 60, **over))
+    # random_filter
+    for dtp in dts:
+        for mode in ["real", "hi", "lo", "script"]:
+            for num in [(lambda n: n), (lambda n: n - 1), (lambda n: 0), (lambda n: n // 2)]:
+                it += 1
+                out.append(gen_randf_case(r, 40, dtype=dtp, N=[1, 5, 16, 37][it % 4], rng_mode=mode, num=num,
+                                          batch=[[], [2], [2, 3], []][it % 4], layout=[None, "rows", None, "T"][it % 4],
+                                          mag_exp=MAGS[dtp][[4, 0, 8][it % 3]]))
+    # camera / homo: every span, layouts, one tensor as points and intrinsics, broadcast shapes
+    for dtp in dts:
+        for sp in ([0, 3] if dtp == "float32" else [0, 10, 40]):
+            for lay_ in [None, "views", "expandK"]:
+                for ext in [False, True]:
+                    out.append(gen_camera_case(r, dtype=dtp, span=sp, layout=lay_, ext=ext))
+        out.append(gen_camera_case(r, dtype=dtp, aliasK=True, span=0))
+        out.append(gen_camera_case(r, dtype=dtp, aliasK=True, span=0))
+        for mg in HOMO_MAGS[dtp][1:]:
+            out.append(gen_homo_case(r, dtype=dtp, mag=mg, layout=[None, "cols"][len(out) % 2]))
+    # histories
+    for _ in range(36):
+        out.append(gen_hist_case(r, r.choice([6, 9, 12])))
+    return out
 
 
 def corner_cases():
@@ -1510,7 +1937,7 @@ def search(ctx: Ctx):
     """failing-input search on the real code after a broken proof / correspondence: the exact brute-force oracles
     (no model involved) over many small clouds, every kind, every ord, both dtypes."""
     rng = random.Random(ctx.seed + 4242)
-    gens = [gen_knn_case, gen_nbr_case, gen_voxel_case, gen_knnf_case, gen_randf_case]
+    gens = [gen_knn_case, gen_nbr_case, gen_voxel_case, gen_knnf_case, gen_randf_case, lambda r_, n_: gen_hist_case(r_)]
     for it in range(1500):
         g = gens[it % len(gens)]
         c = g(rng, 40)
